@@ -63,10 +63,16 @@ func execCase(c Case) (out string, fails []Fail, slow bool) {
 		size += len(a)
 	}
 	start := time.Now()
+	trailMu.Lock()
+	opTrail = opTrail[:0]
+	trailMu.Unlock()
 	func() {
 		defer func() {
 			if r := recover(); r != nil {
 				msg := fmt.Sprint(r)
+				trailMu.Lock()
+				fails = append(fails, opTrail...) // what the oracles had found before the operation went down
+				trailMu.Unlock()
 				if strings.HasPrefix(msg, "harness:") {
 					out = "harness-error"
 					fails = append(fails, fail("HARNESS", "harness-error", "%s", msg))
